@@ -180,3 +180,26 @@ example :
     specC12 exWorld (.drift 0 2) (runMoveCall exWorld (.drift 0 2)) = true := by decide
 
 end Abmarl
+
+namespace Abmarl
+open World
+
+/-! ### Calls made for any agent (round 6): the judge of the driver is `specMoveAny` -/
+
+/-- for an active mover the judge is `specC12` -/
+theorem specMoveAny_active (w : World) (c : MoveCall) (o : Except GErr MoveOut)
+    (hact : (w.stOf c.agent).active = true) : specMoveAny w c o = specC12 w c o := by
+  simp [specMoveAny, hact]
+
+/-- for an active mover the invariant judge is `specC03Move` -/
+theorem specC03MoveAny_active (w : World) (c : MoveCall) (o : Except GErr MoveOut)
+    (hact : (w.stOf c.agent).active = true) : specC03MoveAny w c o = specC03Move w o := by
+  simp [specC03MoveAny, hact]
+
+/-- **C12**, active movers, in the form the driver judges -/
+theorem C12_moves_judge (w : World) (c : MoveCall) (hI : w.WInv = true) (ha : c.agent < w.n)
+    (hact : (w.stOf c.agent).active = true) (hsp : c.inSpace w = true) :
+    specMoveAny w c (runMoveCall w c) = true := by
+  rw [specMoveAny_active w c _ hact]; exact C12_moves w c hI ha hact hsp
+
+end Abmarl
